@@ -19,7 +19,7 @@ pub fn prop() -> Prop {
          for every STRING_VALUE node and at every description / Value::String of ast::Document::parse. Non-trivial: \
          the literal has an escape or is a block string with >= 2 lines; distinct by literal text.",
     )
-    .random("literals", check, |t| if t == Tier::Quick { 150_000 } else { 3_000_000 }, |t| if t == Tier::Quick { 120 } else { 240 })
+    .random("literals", check, |t| if t == Tier::Quick { 1_000_000 } else { 12_000_000 }, |t| if t == Tier::Quick { 120 } else { 240 })
     .text(check_literal)
 }
 
